@@ -4,9 +4,12 @@
 From Coq Require Import List Bool String.
 Import ListNotations.
 
-Inductive ev := Pre | Post | Ret | RetFail.
+(* Tgt = optimizationSetTarget(point) (works in any state), TgtIdx = optimizationSetTargetByIndex(i): a no-op unless the
+   cache is prepared (CovAniso.cpp:1249-1256), so that it must only be called while prepared *)
+Inductive ev := Pre | Post | Ret | RetFail | Tgt | TgtIdx.
 Definition word := list ev.
-Inductive fkind := Closed | Opener | Closer.
+(* Inside = a function that only sets targets and is entered between an opener and its closer *)
+Inductive fkind := Closed | Opener | Closer | Inside.
 
 (* prepared? at exit, entering with p *)
 Fixpoint final (p : bool) (w : word) : bool :=
@@ -15,19 +18,35 @@ Fixpoint final (p : bool) (w : word) : bool :=
   | Pre :: r => final true r
   | Post :: r => final false r
   | Ret :: _ | RetFail :: _ => p
+  | _ :: r => final p r
   end.
+(* every TgtIdx happens while prepared *)
+Fixpoint tgt_ok (p : bool) (w : word) : bool :=
+  match w with
+  | [] => true
+  | Pre :: r => tgt_ok true r
+  | Post :: r => tgt_ok false r
+  | Ret :: _ | RetFail :: _ => true
+  | TgtIdx :: r => p && tgt_ok p r
+  | Tgt :: r => tgt_ok p r
+  end.
+Fixpoint has_prepost (w : word) : bool :=
+  match w with [] => false | Pre :: _ | Post :: _ => true | _ :: r => has_prepost r end.
 Fixpoint fails (w : word) : bool :=
   match w with [] => false | RetFail :: _ => true | Ret :: _ => false | _ :: r => fails r end.
 Definition word_ok (k : fkind) (w : word) : bool :=
   match k with
-  | Closed => negb (final false w)
-  | Opener => if fails w then negb (final false w) else true
-  | Closer => negb (final true w) && negb (final false w)
+  | Closed => negb (final false w) && tgt_ok false w
+  | Opener => (if fails w then negb (final false w) else true) && tgt_ok false w
+  | Closer => negb (final true w) && negb (final false w) && tgt_ok true w
+  | Inside => negb (has_prepost w) && tgt_ok true w
   end.
 Definition failed_paths (t : list (string * fkind * list word)) : list (string * word) :=
   flat_map (fun r => map (fun w => (fst (fst r), w)) (filter (fun w => negb (word_ok (snd (fst r)) w)) (snd r))) t.
 Definition paths_ok (t : list (string * fkind * list word)) : bool :=
   forallb (fun r => forallb (word_ok (snd (fst r))) (snd r)) t.
+(* public entry points from which an Inside function is reachable must refuse to run before the opener succeeded *)
+Definition entries_ok (t : list (string * bool * bool)) : bool := forallb (fun e => snd (fst e) || negb (snd e)) t.
 
 (* the cache itself: which data set it was prepared for *)
 Fixpoint run_word (c : option nat) (d : nat) (w : word) (obs : list nat) : option nat * list nat :=
@@ -37,6 +56,7 @@ Fixpoint run_word (c : option nat) (d : nat) (w : word) (obs : list nat) : optio
                 run_word c' d r (obs ++ match c' with Some x => [x] | None => [] end)
   | Post :: r => run_word None d r obs
   | Ret :: _ | RetFail :: _ => (c, obs)
+  | _ :: r => run_word c d r obs
   end.
 (* a sequence of calls on one covariance object: (data set given, path taken); what each call computes with *)
 Fixpoint calls_trace (c : option nat) (calls : list (nat * word)) : list (list nat) :=
